@@ -270,8 +270,9 @@ pub fn desc_strategy() -> impl Strategy<Value = StoreDesc> {
         prop_oneof![3 => Just(0u8), 2 => 1u8..3],
         prop::bool::weighted(0.3),
         prop::bool::weighted(0.3),
+        (prop_oneof![2 => Just(0u16), 3 => any::<u16>()], any::<u8>()),
     )
-        .prop_map(|(ops, flush_sel, older_sel, rotation, other_slot, with_secret, partial_tail, stale_tail, torn_tail)| StoreDesc {
+        .prop_map(|(ops, flush_sel, older_sel, rotation, other_slot, with_secret, partial_tail, stale_tail, torn_tail, (partial_mask, fork_sel))| StoreDesc {
             ops,
             flush_sel,
             older_sel,
@@ -281,6 +282,8 @@ pub fn desc_strategy() -> impl Strategy<Value = StoreDesc> {
             partial_tail,
             stale_tail,
             torn_tail,
+            partial_mask,
+            fork_sel,
         })
 }
 
@@ -432,6 +435,12 @@ pub fn run_desc(desc: &StoreDesc, local: &mut Local) -> Check {
     if desc.torn_tail {
         local.class("with_torn_tail");
     }
+    if desc.fork() != 0 {
+        local.class("with_fork_above_zero");
+    }
+    if (0..synth.entries_kept.saturating_sub(1)).any(|i| (desc.partial_mask >> (i % 16)) & 1 == 1) {
+        local.class("with_complete_batch_of_partial_entries_in_the_middle");
+    }
     Ok(())
 }
 
@@ -443,7 +452,7 @@ pub fn run(ctx: &Ctx) {
          key, writability) from the four raw files, which must equal the API's answers. Golden: the five interop steps performed on \
          the disk backend must reproduce the SHA-256 file hashes certified against JavaScript in tests/js_interop.rs. Direction 2: an \
          independent writer synthesises JS-valid storage (header in either slot and bit rotation, older/absent/corrupt other slot, \
-         0..n entries, trailing partial entries, stale entries with the other header bit, torn trailing entry) which the crate must \
+         0..n entries, complete batches of partial-flagged entries in the middle, fork counters 0/1/2/300, trailing partial entries, stale entries with the other header bit, torn trailing entry) which the crate must \
          open to the reference state and keep using. Non-trivial: direction 1 = boundary with >= 1 unflushed entry of a kind other \
          than append; direction 2 = description with >= 1 entry and (partial tail or slot 2 current or stale tail).",
     );
